@@ -1,6 +1,7 @@
 package checks
 
 import (
+	"os"
 	"strings"
 
 	"verif/mc/enum"
@@ -14,6 +15,7 @@ import (
 // values of the associative array m).
 
 const c04PreBash = `echo start
+ret() { return $1; }
 x=3 y=4 n=-2 i=1 j=2 s=abcdefg e= p='*' w='a b' r=
 arr=(5 6 7)
 declare -A m=([1]=11 [i]=12 [2]=13 [i+1]=14 [1+1]=15 [3]=16 [x]=17)
@@ -23,10 +25,11 @@ set -- 1 2 3
 const c04EpiBash = `
 st=$?
 echo "x=$x y=$y i=$i j=$j r=$r arr=${arr[*]} m=${m[1]},${m[i]},${m[2]},${m[i+1]},${m[1+1]},${m[3]},${m[x]},${m[4]},${m[9]}"
-exit $st
+ret $st
 `
 
 const c04PrePosix = `echo start
+ret() { return $1; }
 x=3 y=4 n=-2 i=1 j=2 s=abcdefg e= p='*' w='a b' r=
 set -- 1 2 3
 `
@@ -34,7 +37,7 @@ set -- 1 2 3
 const c04EpiPosix = `
 st=$?
 echo "x=$x y=$y i=$i j=$j r=$r"
-exit $st
+ret $st
 `
 
 type c04Snip struct {
@@ -184,23 +187,27 @@ func c04Arith(thorough bool, emit func(c04Snip)) {
 		"echo $(( \"$x\" + '1' ))", "echo $(( \"($x)\" ))", "echo $(( $(echo $x) + `echo $y` ))", "echo $(( $(( $x )) ))",
 		"f() { local x=8; echo $(( $x + 1 )) $(( ($x) )); }; f", "f() { echo $(( $1 + $2 )) $(( ($1) )); }; f 4 5",
 		"x=010; echo $(( $x + 1 )) $(( x + 1 ))", "x=0x10; echo $(( $x + 1 ))", "x=' 3 '; echo $(( $x + 1 ))", "x=2#11; echo $(( $x ))",
-		"readonly c=5; echo $(( $c = 6 ))", "echo $(( $x == 3 && $y == 4 )) $(( ($x == 3) && ($y == 4) ))",
+		"( readonly c=5; echo $(( $c = 6 )) )", "echo $(( $x == 3 && $y == 4 )) $(( ($x == 3) && ($y == 4) ))",
 	} {
 		emit(c04Snip{"arith-hand", t})
 	}
 }
 
 // c04Subshell enumerates the nested-subshell family.
-func c04Subshell(emit func(c04Snip)) {
-	bodies := []string{"echo a", "exit 3", "x=9; echo $x", "echo a; echo b", "false", "(echo c)", "(echo c); echo d", "! false", "echo a >&2", "echo a | read l", "echo a &", "{ echo a; }", "(exit 4) || echo f", "exit 5 &"}
+func c04Subshell(thorough bool, emit func(c04Snip)) {
+	bodies := []string{"echo a", "exit 3", "x=9; echo $x", "echo a; echo b", "false", "(echo c)", "(echo c); echo d", "! false", "echo a >&2", "echo a | read l", "echo a & wait", "{ echo a; }", "(exit 4) || echo f", "exit 5 & wait $!"}
 	wraps := []string{
-		"( @ )", "( ( @ ) )", "( ( ( @ ) ) )", "((( @ )))", "( ( (@);) )", "( ! ( @ ) )", "( ( @ ) & wait )", "( ( @ ) & )", "( ( @ ) >/dev/null )", "( ( @ ) 2>&1 )", "( ( @ ) </dev/null )",
+		"( @ )", "( ( @ ) )", "( ( ( @ ) ) )", "((( @ )))", "( ( (@);) )", "( ! ( @ ) )", "( ( @ ) & wait )", "( ( @ ) >/dev/null )", "( ( @ ) 2>&1 )", "( ( @ ) </dev/null )",
 		"( ( @ ); echo z )", "( ( @ ) && echo t )", "( ( @ ) || echo f )", "( ( @ ) | while read l; do echo \"[$l]\"; done )", "( ( @ ) ) >/dev/null", "! ( ( @ ) )", "( ( @ ) ) &\nwait", "( ( @ ) ) | while read l; do echo \"[$l]\"; done",
 		"( (\n@\n) )", "(\n(\n@\n)\n)", "( # c\n( @ ) )", "( ( @ ) # c\n)", "( ( @ ) ) # c", "( { ( @ ); } )", "{ ( ( @ ) ); }",
-		"echo $( ( @ ) )", "echo $( ( ( @ ) ) )", "echo \"$( ( @ ) )\"", "echo `( @ )`", "echo `( ( @ ) )`", "echo $( ! ( @ ) )", "echo $( ( @ ) 2>&1 )", "echo $( ( @ ) >/dev/null )", "echo $( ( @ ) & )", "echo $( ( @ ); echo z )", "echo $( ( @ ) || echo f )",
+		"echo $( ( @ ) )", "echo $( ( ( @ ) ) )", "echo \"$( ( @ ) )\"", "echo `( @ )`", "echo `( ( @ ) )`", "echo $( ! ( @ ) )", "echo $( ( @ ) 2>&1 )", "echo $( ( @ ) >/dev/null )", "echo $( ( @ ) & wait )", "echo $( ( @ ); echo z )", "echo $( ( @ ) || echo f )",
 		"echo $( ( @ ) | while read l; do echo \"[$l]\"; done )", "echo $(\n( @ )\n)", "echo $( # c\n( @ ) )", "echo $( ( $( ( @ ) ) ) )", "r=$( ( @ ) ); echo \"$?\"", "echo ${u:-$( ( @ ) )}", "echo $(( $( ( echo 2 ) ) + 1 )); ( ( @ ) )",
 		"read l < <( ( @ ) ); echo \"$l\"", "( ( @ ) ) <<EOF\nhi\nEOF", "( ( @ ) <<EOF\nhi\nEOF\n)", "if ( ( @ ) ); then echo t; else echo f; fi", "f() ( ( @ ) ); f", "f() { ( ( @ ) ); }; f",
 		"( ( @ ) ); ( ( @ ) )", "( ( ( @ ) ); ( ( @ ) ) )", "( ( ( @ ) ) & wait )", "( ( ! ( @ ) ) )", "( ( ( @ ) >/dev/null ) )", "( ( ( @ ) ) 2>&1 )", "( ( ( @ ); echo z ) )",
+	}
+	if !thorough {
+		// every subshell is a fork in bash (100+ ms each on the loaded machine)
+		bodies = []string{"echo a", "exit 3", "x=9; echo $x", "(echo c); echo d", "false"}
 	}
 	for _, w := range wraps {
 		for _, b := range bodies {
@@ -212,7 +219,7 @@ func c04Subshell(emit func(c04Snip)) {
 // c04Tests enumerates the [[ ]] family.
 func c04Tests(thorough bool, emit func(c04Snip)) {
 	opsSmall := []string{`"$x"`, `$x`, `"$e"`, `"$w"`, `"$p"`, `3`, `"3"`, `a*`, `"${arr[1]}"`, `"\$x"`}
-	opsFull := append(append([]string{}, opsSmall...), `"${y}"`, `abc`, `"a b"`, `"${arr[@]}"`, `"$(echo 3)"`, `"$x$y"`, `"$1"`, `"$@"`, `"${s:1:2}"`, `"${#s}"`, `"$u"`, `"${e:-*}"`, `'$x'`, `"${arr[*]}"`)
+	opsFull := append(append([]string{}, opsSmall...), `"${y}"`, `abc`, `"a b"`, `"${arr[@]}"`, `"$x$y"`, `"$1"`, `"$@"`, `"${s:1:2}"`, `"${#s}"`, `"$u"`, `"${e:-*}"`, `'$x'`, `"${arr[*]}"`)
 	operands := opsSmall
 	if thorough {
 		operands = opsFull
@@ -269,7 +276,7 @@ func c04Tests(thorough bool, emit func(c04Snip)) {
 		"IFS=:; [[ \"$*\" == 1:2:3 ]]; echo $?", "IFS=:; [[ -n \"$*\" ]]; echo $?", "IFS=; [[ \"${arr[*]}\" == 567 ]]; echo $?", "set --; [[ -z \"$@\" ]]; echo $?", "set --; [[ -n \"$*\" ]]; echo $?", "set -- '' ''; [[ -n \"$@\" ]]; echo $?",
 		"[[ \"$w\" == a\\ b ]]; echo $?", "[[ -n \"$w\" && \"$w\" == \"$w\" ]]; echo $?", "[[ \"${w}\" < \"${x}\" ]]; echo $?", "[[ \"$x\"\"$y\" == 34 ]]; echo $?", "[[ x\"$x\" == x3 ]]; echo $?", "[[ $\"$x\" == 3 ]]; echo $?",
 		"[[ \"${x:-\"a b\"}\" == 3 ]]; echo $?", "[[ -n \"${e:-\"\\$x\"}\" ]]; echo $?", "[[ \"\\$x\" == \"\\$x\" ]]; echo $?", "[[ \"$x\" == \"\\*\" ]]; echo $?", "[[ '*' == \"\\*\" ]]; echo $?", "[[ ab =~ \"\\$\" ]]; echo $?", "[[ 'a$' =~ a\"\\$\" ]]; echo $?",
-		"[[ \"$x\" -eq 3 ]] && [[ ! -z \"$x\" ]] && echo t", "[[ ! -n \"$e\" ]] && echo $(( $x + 1 )) \"\\$x\"",
+		"[[ \"$x\" -eq 3 ]] && [[ ! -z \"$x\" ]] && echo t", "[[ \"$(echo 3)\" == \"$x\" ]]; echo $?", "[[ ! -n \"$(echo 3)\" ]]; echo $?", "[[ \"$x\" == \"$(echo \"$p\")\" ]]; echo $?", "[[ ! -n \"$e\" ]] && echo $(( $x + 1 )) \"\\$x\"",
 	} {
 		emit(c04Snip{"test-hand", t})
 	}
@@ -320,6 +327,9 @@ func c04Strings(thorough bool, emit func(c04Snip)) {
 			if toks > 3 && i >= 9 {
 				break
 			}
+			if toks > 2 && cx.fam == "dq-cmdsubst" {
+				continue // a command substitution forks in bash
+			}
 			emit(c04Snip{cx.fam, strings.ReplaceAll(cx.pat, "@", s)})
 		}
 	})
@@ -367,8 +377,9 @@ func c04Mixed(emit func(c04Snip)) {
 // c04Gen emits every case of the check.
 func c04Gen(thorough bool, emit func(c04Case)) {
 	seen := map[string]bool{}
+	only := os.Getenv("C04_ONLY") // development aid: restrict to families with this prefix
 	snip := func(s c04Snip) {
-		if seen[s.Text] {
+		if seen[s.Text] || !strings.HasPrefix(s.Fam, only) {
 			return
 		}
 		seen[s.Text] = true
@@ -380,13 +391,20 @@ func c04Gen(thorough bool, emit func(c04Case)) {
 			emit(c04Case{Src: s.Text + "\n", Variant: v, Kind: 0, Fam: s.Fam})
 		}
 	}
+	if one := os.Getenv("C04_SNIP"); one != "" { // development aid: a single snippet
+		snip(c04Snip{"snip", one})
+		return
+	}
 	c04Mixed(snip)
-	c04Subshell(snip)
+	c04Subshell(thorough, snip)
 	c04Arith(thorough, snip)
 	c04Tests(thorough, snip)
 	c04Strings(thorough, snip)
 	// corpora
 	cseen := map[string]bool{}
+	if only != "" && only != "corpus" {
+		return
+	}
 	for _, src := range synt.SyntaxCorpus() {
 		if cseen[src] {
 			continue
